@@ -264,6 +264,10 @@ pub struct Run {
     pub assumptions: Mutex<Vec<String>>,
     pub extra: Mutex<BTreeMap<String, Value>>,
     findings: Vec<known::Finding>,
+    /// per-case budget in seconds for sub-checks whose property includes "never stalls"
+    /// (0 = none): a case that does not return within it is reported as a violation
+    pub case_budget: std::sync::atomic::AtomicU64,
+    pub evidence_path: Mutex<String>,
 }
 
 impl Run {
@@ -287,6 +291,8 @@ impl Run {
             assumptions: Mutex::new(Vec::new()),
             extra: Mutex::new(BTreeMap::new()),
             findings: known::load(prop),
+            case_budget: std::sync::atomic::AtomicU64::new(0),
+            evidence_path: Mutex::new(String::new()),
         }
     }
 
@@ -372,7 +378,7 @@ impl Run {
     where
         G: Fn() -> S + Sync,
         S: Strategy,
-        S::Value: Serialize + Clone + Debug,
+        S::Value: Serialize + Clone + Debug + Send,
         F: Fn(&S::Value) -> CheckResult + Sync,
     {
         let t0 = Instant::now();
@@ -411,13 +417,43 @@ impl Run {
         let threads = (self.threads as u64).min(cases.max(1)).max(1);
         let stop = AtomicBool::new(false);
         let found: Mutex<Option<(Value, Failure)>> = Mutex::new(None);
+        let budget = self.case_budget.load(Ordering::Relaxed);
+        let running: Vec<Mutex<Option<(Instant, S::Value)>>> = (0..threads).map(|_| Mutex::new(None)).collect();
+        let live = std::sync::atomic::AtomicU64::new(threads);
         std::thread::scope(|scope| {
+            if budget > 0 {
+                let running = &running;
+                let live = &live;
+                scope.spawn(move || {
+                    // watchdog: a case that does not return is a stall of the code under test
+                    while live.load(Ordering::Relaxed) > 0 {
+                        std::thread::sleep(std::time::Duration::from_millis(200));
+                        for slot in running.iter() {
+                            let stuck = {
+                                let g = slot.lock().unwrap();
+                                g.as_ref().filter(|(t, _)| t.elapsed().as_secs() >= budget).map(|(_, v)| v.clone())
+                            };
+                            if let Some(v) = stuck {
+                                let case = serde_json::to_value(&v).unwrap_or(Value::Null);
+                                self.record_violation(sub, &case, Failure::new("stall", format!("the code under test did not return within {budget} s on this input (other inputs take microseconds): it stalls or loops")));
+                                let path = self.evidence_path.lock().unwrap().clone();
+                                if !path.is_empty() {
+                                    self.write_evidence(&path);
+                                }
+                                std::process::exit(1);
+                            }
+                        }
+                    }
+                });
+            }
             for shard in 0..threads {
                 let n = cases / threads + if shard < cases % threads { 1 } else { 0 };
                 let mk_strat = &mk_strat;
                 let check = &check;
                 let stop = &stop;
                 let found = &found;
+                let running = &running;
+                let live = &live;
                 scope.spawn(move || {
                     let strat = mk_strat();
                     let strat = &strat;
@@ -440,10 +476,16 @@ impl Run {
                             // another shard already found a violation: finish fast
                             return Ok(());
                         }
+                        if budget > 0 {
+                            *running[shard as usize].lock().unwrap() = Some((Instant::now(), v.clone()));
+                        }
                         let out = match catch(|| check(&v)) {
                             Ok(r) => r,
                             Err(p) => Err(p.into_failure(sub)),
                         };
+                        if budget > 0 {
+                            *running[shard as usize].lock().unwrap() = None;
+                        }
                         match out {
                             Ok(mut info) => {
                                 info.classes.sort();
@@ -505,6 +547,7 @@ impl Run {
                         local_cell.borrow_mut().note = Some(format!("runner aborted: {r}"));
                     }
                     self.merge(sub, local_cell.into_inner());
+                    live.fetch_sub(1, Ordering::Relaxed);
                 });
             }
         });
